@@ -3,6 +3,7 @@ package sign
 import (
 	"bytes"
 	"crypto"
+	crand "crypto/rand"
 	"fmt"
 	"io"
 	"math/big"
@@ -26,6 +27,7 @@ const (
 	rdDevice = iota
 	rdRFC6979
 	rdNilGlobal
+	rdExplicitGlobal // crypto/rand.Reader itself is passed as `rand` (and is the device)
 )
 
 type ecdsaReq struct {
@@ -63,6 +65,8 @@ func (q *ecdsaReq) desc() string {
 		rd = "RFC6979SHA256()"
 	case rdNilGlobal:
 		rd = "nil(crypto/rand.Reader=dev[" + q.dev.Summary() + "])"
+	case rdExplicitGlobal:
+		rd = "crypto/rand.Reader(=dev[" + q.dev.Summary() + "])"
 	}
 	return fmt.Sprintf("%s key=%d opts=%s digest=%x rand=%s", api, q.key, q.optsDesc, q.digest, rd)
 }
@@ -81,6 +85,10 @@ func (q *ecdsaReq) admissible() (bool, string) {
 	}
 	return true, ""
 }
+
+// badEncodings are SignatureEncoding values that name no encoding,
+// including values whose low 8 / 16 / 32 bits look like a valid one.
+var badEncodings = []secec.SignatureEncoding{3, -1, 255, 256, 257, 258, 512, -256, -255, 65536, 65538, 1 << 32, 1<<32 + 1, -1 << 63, 1<<63 - 1, 4}
 
 // genOpts draws the options for a Sign call.
 func (w *World) genOpts(stream string, q *ecdsaReq) {
@@ -113,7 +121,7 @@ func (w *World) genOpts(stream string, q *ecdsaReq) {
 		case e < 9:
 			o.Encoding = secec.EncodingCompactRecoverable
 		default:
-			o.Encoding = []secec.SignatureEncoding{3, -1, 255}[w.t.Choose(stream, "opts.badenc", 3)]
+			o.Encoding = badEncodings[w.t.Choose(stream, "opts.badenc", len(badEncodings))]
 			q.encValid = false
 		}
 		o.SelfVerify = w.t.Bool(stream, "opts.selfverify")
@@ -148,11 +156,14 @@ func (w *World) genECDSAReq(stream string) *ecdsaReq {
 		}
 	}
 	q.digest = w.genDigest(stream, n)
-	switch w.t.Choose(stream, "reader", 8) {
+	switch w.t.Choose(stream, "reader", 9) {
 	case 6:
 		q.reader = rdRFC6979
 	case 7:
 		q.reader = rdNilGlobal
+		q.dev = w.genDevice(stream, 32)
+	case 8:
+		q.reader = rdExplicitGlobal
 		q.dev = w.genDevice(stream, 32)
 	default:
 		q.reader = rdDevice
@@ -169,7 +180,7 @@ func (w *World) execECDSA(q *ecdsaReq) *ecdsaOut {
 	switch q.reader {
 	case rdRFC6979:
 		rd = secec.RFC6979SHA256()
-	case rdNilGlobal:
+	case rdNilGlobal, rdExplicitGlobal:
 		out.dev = kernel.NewDevice(q.dev)
 		rd = nil
 	default:
@@ -177,6 +188,9 @@ func (w *World) execECDSA(q *ecdsaReq) *ecdsaOut {
 		rd = out.dev
 	}
 	call := func() {
+		if q.reader == rdExplicitGlobal {
+			rd = crand.Reader // the device, installed by withGlobalRand
+		}
 		if q.api == apiSign {
 			out.sig, out.err = sg.priv.Sign(rd, q.digest, q.opts)
 		} else {
@@ -184,7 +198,7 @@ func (w *World) execECDSA(q *ecdsaReq) *ecdsaOut {
 		}
 	}
 	var po callOut
-	if q.reader == rdNilGlobal {
+	if q.reader == rdNilGlobal || q.reader == rdExplicitGlobal {
 		withGlobalRand(out.dev, func() { po = protect(call) })
 	} else {
 		po = protect(call)
@@ -290,6 +304,19 @@ func (w *World) runECDSA(step int, q *ecdsaReq) *sigEvent {
 		if mayFail {
 			return nil
 		}
+		if q.api == apiSign && q.selfVerify {
+			// does the same request succeed with self-verification off?
+			if o, ok := q.opts.(*secec.ECDSAOptions); ok {
+				q2 := *q
+				o2 := *o
+				o2.SelfVerify = false
+				q2.opts, q2.selfVerify = &o2, false
+				if out2 := w.execECDSA(&q2); !out2.panicked && out2.err == nil {
+					w.r.Violate("C08", "selfverify-changes-output", "fails-only-with-selfverify", step, "%s failed (%v), but the same request with SelfVerify=false succeeds: turning on self-verification changed the outcome", q.desc(), out.err)
+					return nil
+				}
+			}
+		}
 		w.r.Violate("C09", "healthy-read-failed", opKey, step, "%s: no device error within the first 32 bytes, yet signing failed: %v", q.desc(), out.err)
 		return nil
 	}
@@ -344,6 +371,9 @@ func (w *World) runECDSA(step int, q *ecdsaReq) *sigEvent {
 	}
 	v = v0
 
+	if out.sig != nil {
+		w.hold(step, q, out.sig)
+	}
 	ev := &sigEvent{step: step, key: q.key, digest: q.digest, mode: mode, ent: ent, r: r, s: s, v: v, sigDesc: q.desc()}
 	ev.e, _ = ref.DigestToE(q.digest)
 	w.checkSigEvent(ev)
@@ -353,6 +383,32 @@ func (w *World) runECDSA(step int, q *ecdsaReq) *sigEvent {
 		w.checkRFC6979(ev)
 	}
 	return ev
+}
+
+// hold keeps the byte slice a Sign call returned (the slice itself, not a
+// copy) together with a snapshot, so that later steps can check that the
+// bytes the caller was given stay the caller's.
+func (w *World) hold(step int, q *ecdsaReq, sig []byte) {
+	if len(w.held) >= 24 {
+		w.held = w.held[1:]
+	}
+	w.held = append(w.held, heldSig{step: step, desc: q.desc(), sig: sig, snap: append([]byte(nil), sig...), enc: q.enc})
+}
+
+// checkHeld: every signature handed out earlier in this history still holds
+// the bytes it held when it was returned.
+func (w *World) checkHeld(step int) {
+	for i := range w.held {
+		h := &w.held[i]
+		if h.reported || bytes.Equal(h.sig, h.snap) {
+			continue
+		}
+		h.reported = true
+		w.r.Violate("C08", "returned-signature-changed-later", fmt.Sprintf("Sign:enc=%d", h.enc), step, "the signature returned at step %d by %s was %x when it was returned and reads %x at step %d: the bytes handed to the caller are still being written by the library", h.step, h.desc, h.snap, h.sig, step)
+	}
+	if len(w.held) > 1 {
+		w.r.Probe("held_signatures_rechecked")
+	}
 }
 
 // parseSig parses Sign output with the model's parsers and cross-checks the
@@ -727,13 +783,22 @@ func (w *World) runSchnorr(step, key int, msg []byte, cfg kernel.DevCfg, useNil 
 	var sig []byte
 	var err error
 	var po callOut
+	// the options argument is documented as ignored: BIP-340 signs messages
+	// of any length whatever the caller puts there
+	optNames := []string{"nil", "crypto.SHA256", "crypto.Hash(0)", "crypto.SHA512", "&ECDSAOptions{}"}
+	optVals := []crypto.SignerOpts{nil, crypto.SHA256, crypto.Hash(0), crypto.SHA512, &secec.ECDSAOptions{}}
+	oi := w.t.Choose("ops", "sch.opts", 2*len(optVals))
+	if oi >= len(optVals) {
+		oi = 0
+	}
+	opts := optVals[oi]
 	if useNil {
-		withGlobalRand(dev, func() { po = protect(func() { sig, err = sg.sch.Sign(nil, msg, nil) }) })
+		withGlobalRand(dev, func() { po = protect(func() { sig, err = sg.sch.Sign(nil, msg, opts) }) })
 	} else {
-		po = protect(func() { sig, err = sg.sch.Sign(dev, msg, nil) })
+		po = protect(func() { sig, err = sg.sch.Sign(dev, msg, opts) })
 	}
 	w.countDeviceFaults(dev)
-	desc := fmt.Sprintf("SchnorrSign key=%d msg=%x rand=dev[%s] nil=%v", key, msg, cfg.Summary(), useNil)
+	desc := fmt.Sprintf("SchnorrSign key=%d msg=%x opts=%s rand=dev[%s] nil=%v", key, msg, optNames[oi], cfg.Summary(), useNil)
 	outcome := "ok"
 	if po.panicked {
 		outcome = "panic:" + po.panicMsg
